@@ -26,3 +26,11 @@ void h_parse_query(void) {
     s_parse_query_string(p, s);
     CANARY("returned");
 }
+void h_parse_authority(void) {
+    struct uri_parser *p; struct aws_byte_cursor *s;
+    GHOSTS_P();
+    s_parse_authority(p, s);
+    if (g_raise_count > 0) { if (g_pu_calls == 1) CANARY("bad port"); else CANARY("malformed"); }
+    else if (g_pu_calls == 1) CANARY("port parsed");
+    else CANARY("no port text");
+}
